@@ -345,6 +345,20 @@ impl EncodingBuilder {
         let ckey_pages = self.build_ckey_pages(ckey_page_size)?;
         let ekey_pages = self.build_ekey_pages(ekey_page_size, &espec_table)?;
 
+        // A table with entries of one kind only gets a page count of zero for
+        // the other kind, which the parser rejects: refuse it here instead of
+        // handing out a file that cannot be read back
+        if ckey_pages.is_empty() != ekey_pages.is_empty() {
+            return Err(EncodingError::InvalidPageCount {
+                field: if ckey_pages.is_empty() {
+                    "ckey_page_count"
+                } else {
+                    "ekey_page_count"
+                },
+                value: 0,
+            });
+        }
+
         // Build indices
         let ckey_index = Self::build_index(&ckey_pages);
         let ekey_index = Self::build_index(&ekey_pages);
@@ -856,6 +870,37 @@ mod tests {
             encoding_file.espec_table.entries.len(),
             decompressed.espec_table.entries.len()
         );
+    }
+
+    #[test]
+    fn test_builder_with_entries_of_one_kind_only_is_rejected() {
+        let mut builder = EncodingBuilder::new();
+        builder.add_ckey_entry(CKeyEntryData {
+            content_key: ContentKey::from_bytes([1u8; 16]),
+            file_size: 1,
+            encoding_keys: vec![EncodingKey::from_bytes([2u8; 16])],
+        });
+        assert!(matches!(
+            builder.build(),
+            Err(EncodingError::InvalidPageCount {
+                field: "ekey_page_count",
+                value: 0
+            })
+        ));
+
+        let mut builder = EncodingBuilder::new();
+        builder.add_ekey_entry(EKeyEntryData {
+            encoding_key: EncodingKey::from_bytes([2u8; 16]),
+            espec: "z".to_string(),
+            file_size: 1,
+        });
+        assert!(matches!(
+            builder.build(),
+            Err(EncodingError::InvalidPageCount {
+                field: "ckey_page_count",
+                value: 0
+            })
+        ));
     }
 
     #[test]
